@@ -105,8 +105,12 @@ class FakeNDB:
         self.interfaces = {i + 1: {"ifname": n} for i, n in enumerate(ifaces)}
         self.table = []
         ndb = self
+        self.hook = None      # called inside neighbours.dump(), after the table was read (concurrent deliveries)
         class N:
-            def dump(self_inner): return list(ndb.table)
+            def dump(self_inner):
+                res = list(ndb.table)
+                if ndb.hook: ndb.hook()
+                return res
         self.neighbours = N()
     def ifindex(self, name):
         return [k for k, v in self.interfaces.items() if v["ifname"] == name][0]
@@ -177,7 +181,7 @@ def deliver(ctl, ndb, ev):
     except Exception as e:
         return {"op": "raised", "what": type(e).__name__ + ": " + str(e), "event": list(ev)}
 
-def run_pair(prefix, ev1, ev2):
+def run_pair(prefix, ev1, ev2, hold="bess"):
     """the kernel delivers ev1 and ev2 on two threads: ev1's handler is held inside its first BESS command while ev2 is
     delivered (a handler that takes the controller's lock waits; one that does not runs into the half-done state); the
     state after both is recorded as ONE line {"op":"pair","evs":[..],"g":..} - the two events commute in the kernel"""
@@ -193,12 +197,15 @@ def run_pair(prefix, ev1, ev2):
             parked.set(); release.wait(5.0)
     ta = threading.Thread(target=lambda: res.__setitem__(1, deliver(ctl, ndb, ev1)))
     tb = threading.Thread(target=lambda: res.__setitem__(2, deliver(ctl, ndb, ev2)))
-    b.hook = hook
+    if hold == "ndb":     # ev1's handler is held inside its neighbour lookup instead (it has read the table already)
+        ndb.hook = hook
+    else:
+        b.hook = hook
     ta.start()
     while ta.is_alive() and not parked.is_set(): _time.sleep(0.0005)
     tb.start(); tb.join(0.04)
     release.set(); ta.join(10); tb.join(10)
-    b.hook = None
+    b.hook = None; ndb.hook = None
     l1, l2 = res.get(1, {"op": "raised", "what": "hung", "event": list(ev1)}), res.get(2, {"op": "raised", "what": "hung", "event": list(ev2)})
     for x in (l1, l2):
         if x["op"] == "raised":
@@ -292,6 +299,11 @@ for k in range(60 if tier == "quick" else 1200):
     ev1 = prng.choice(busy)
     ev2 = prng.choice([e for e in cands if e != ev1])
     run_pair(h, ev1, ev2)
+    # a route through a next hop that is not resolved yet, held inside its neighbour lookup while the neighbour resolves
+    waiting = [e for e in cands if e[0] == "NR" and e[4] not in known]
+    if waiting:
+        ev1 = prng.choice(waiting)
+        run_pair(h, ev1, ("NN", ev1[4], MAC[ev1[4]]), hold="ndb")
 
 out.close()
 json.dump({"lines": lines, "seqs": seqs}, open(out_path + ".summary", "w"))
